@@ -174,7 +174,7 @@ def run(ctx):
         ok = leave.get("Halt") and not any(leave["Halt"]) and leave.get("ComputeEnd") and not any(leave["ComputeEnd"]) and all(leave.get("Pc", [False])) and all(leave.get("None", [False]))
         ctx.ob("R4", "Halt/ComputeEnd-leave-the-loop;Pc/None-continue", bool(ok), "%s:%d" % (x.file, x.line), "can another op be fetched after the arm: %s" % leave, x)
         rets = [(v, at[-1] if at else "") for v, at in table(prog, x) if v.startswith("Result::Ok")]
-        ctx.ob("R4", "returns-the-gas-total", [v for v, _ in rets] == ["Result::Ok{var:gas_spent}"], "%s:%d" % (x.file, x.line), "Ok returns %s" % rets, x)
+        ctx.ob("R4", "returns-the-gas-total", len(rets) == 1 and re.match(r"^Result::Ok\{var:\w+\}$", rets[0][0]) is not None, "%s:%d" % (x.file, x.line), "Ok returns %s" % rets, x)
     # ---- R5 ---------------------------------------------------------------
     rp = prog.fn("essential_vm::repeat::Repeat::repeat")
     if ctx.anchor("R5", "fn Repeat::repeat", rp):
